@@ -18,6 +18,9 @@ mod w_dgram;
 mod w_flow;
 mod w_ser;
 mod w_stream;
+mod w_taps;
+mod structs;
+mod allparsers;
 mod worlds;
 
 use crate::core::Prop;
@@ -45,6 +48,8 @@ fn usage() -> ! {
 
 fn default_runs(prop: Prop, tier: Tier) -> u64 {
     let q = match prop {
+        Prop::C01 => 120_000,
+        Prop::C06 => 300_000,
         Prop::C07 => 300_000,
         Prop::C08 => 400_000,
         Prop::C09 => 300_000,
@@ -54,7 +59,7 @@ fn default_runs(prop: Prop, tier: Tier) -> u64 {
     };
     match tier {
         Tier::Quick => q,
-        Tier::Thorough => q * 30,
+        Tier::Thorough => q * 40,
     }
 }
 
